@@ -288,6 +288,57 @@ func checkC19(c *Check) {
 	// the parameters acted upon are those of this request (no field inherited from the previous message)
 	checkFreshDecode(c, "7/request-is-fresh")
 
+	// ---------- 9: the control buffer holds the largest message the kernel can deliver ----------
+	// 253 descriptors (SCM_MAX_FD) plus a credential record (the host end has SO_PASSCRED): CMSG_SPACE(253*4) +
+	// CMSG_SPACE(sizeof(struct ucred)) bytes; the size is a compile-time constant so that it can be bounded
+	{
+		align := func(n int64) int64 { return (n + 7) &^ 7 }
+		need := align(16) + align(253*4) + align(16) + align(12)
+		var sizes []string
+		okSize := false
+		for _, fn := range p.PkgFuncs(us) {
+			for _, b := range fn.Blocks {
+				for _, in := range b.Instrs {
+					st, ok := in.(*ssa.Store)
+					if !ok {
+						continue
+					}
+					fa, ok := st.Addr.(*ssa.FieldAddr)
+					if !ok || fieldName(fa.X.Type(), fa.Field) != "recvBuff" {
+						continue
+					}
+					switch v := st.Val.(type) {
+					case *ssa.Slice:
+						// make([]byte, constant) is compiled to a fixed-size array that is sliced
+						if a, ok := v.X.(*ssa.Alloc); ok {
+							if at, ok := a.Type().(*types.Pointer).Elem().Underlying().(*types.Array); ok {
+								sizes = append(sizes, fmt.Sprint(at.Len()))
+								okSize = at.Len() >= need
+								continue
+							}
+						}
+						sizes = append(sizes, describe(v))
+						okSize = false
+					case *ssa.MakeSlice:
+						if n, isC := constInt(v.Len); isC {
+							sizes = append(sizes, fmt.Sprint(n))
+							okSize = n >= need
+						} else {
+							sizes = append(sizes, "the run-time value "+describe(v.Len))
+							okSize = false
+						}
+					default:
+						sizes = append(sizes, describe(st.Val))
+						okSize = false
+					}
+				}
+			}
+		}
+		c.Cond(okSize && len(sizes) > 0, "9/control-buffer-size", us+":recvBuff", us+"/", fmt.Sprintf("receive control buffer is %s bytes, a constant ≥ %d", strings.Join(sizes, ","), need),
+			fmt.Sprintf("the receive control buffer has size %s; a constant of at least %d bytes is needed for the largest descriptor list plus the credential record: a full-size batch arrives truncated and is rejected, after which the environment is unusable", strings.Join(sizes, ","), need))
+		c.Expect("9/control-buffer-size", 1)
+	}
+
 	// ---------- 8: what is delivered does not alias the socket's buffers ----------
 	// the credentials handed to the caller are the copy made by the parser of the standard library, not a pointer
 	// into the control buffer (which the next receive overwrites)
